@@ -261,6 +261,7 @@ SEARCH = [
     (r'::fmt$|canonicalize|lemma_', ['rt', 'mut', 'inv']),
     (r'ExtensionList::(set_|remove_|clear_|add_|has_|is_empty|tlang)|set_variants|clear_variants|has_variant', ['mut']),
     (r'::matches$', ['matches']),
+    (r'::(Locale|LanguageIdentifier)::from$', ['super']),
     (r'LanguageIdentifier::(maximize|minimize)', ['likely']),
     (r'LanguageIdentifier::eq$', ['rt']),
     (r'unic_locale_impl::|locale', ['locale', 'rt']),
@@ -271,6 +272,8 @@ def search_kind(kind, seed=0):
     if kind == 'features':
         from . import featdiff
         return featdiff.search()
+    if kind == 'dirrows':
+        return dirrows()
     if not build():
         return None
     r = common.run([VW, 'search', kind, str(seed)], timeout=900)
@@ -281,6 +284,34 @@ def search_kind(kind, seed=0):
     if not out.startswith('NONE'):
         # the enumeration itself died (timeout, or a panic inside the library that the harness does not catch): not a verdict
         raise RuntimeError('bounded search %s did not complete (rc=%s): %s' % (kind, r['rc'], ((r['err'] or '') + out)[-400:].replace('\n', ' ')))
+    return None
+
+
+def dirrows():
+    """C14, closed obligation decided by execution: every CLDR layout locale (rows re-derived by vf/gen.py on every run) on the real
+    library built with likely subtags: character_direction == characterOrder; for the script-less rows of right-to-left languages the
+    real maximize gives the likely script CLDR gives."""
+    import re
+    from . import gen
+    if not build():
+        return None
+    txt = gen.layout(common.REPO)
+    m = re.search(r'EXPECTED_LAYOUT_ROWS: [^=]*= \[(.*?)\n\];', txt, re.S)
+    rows = re.findall(r'\((\d+), (\d+), (\d+), (\d+)\)', m.group(1))
+    m2 = re.search(r'EXPECTED_LAYOUT_ROWS_LIKELY: [^=]*= \[(.*?)\n\];', txt, re.S)
+    lik = {(a, c): e for a, b, c, d, e in re.findall(r'\((\d+), (\d+), (\d+), (\d+), (\d+)\)', m2.group(1))}
+    path = os.path.join(common.scratch(), 'dirrows.txt')
+    with open(path, 'w') as f:
+        for l, s_, r, d in rows:
+            f.write('%s %s %s %s %s\n' % (l, s_, r, d, lik.get((l, r), '-') if s_ == '0' else '-'))
+    r = common.run([VW, 'dirrows', path], timeout=300)
+    out = (r['out'] or '').strip()
+    if out.startswith('FOUND '):
+        _, l, s_, rg, desc = out.split(' ', 4)
+        o = lambda v: None if v == '-' else int(v)
+        return {'kind': 'lsr', 'l': o(l), 's': o(s_), 'r': o(rg), 'found_by': 'execution of all %d CLDR layout rows' % len(rows), 'desc': desc}
+    if not out.startswith('NONE'):
+        raise RuntimeError('dirrows did not complete (rc=%s): %s' % (r['rc'], ((r['err'] or '') + out)[-400:].replace('\n', ' ')))
     return None
 
 
